@@ -328,7 +328,11 @@ func initExterns() {
 			if a.K == KStrLit && b.K == KStrLit {
 				return Value{Bool(conc(a.Name, b.Name))}
 			}
-			return Value{App(name, SBool, a, b)}
+			r := App(name, SBool, a, b)
+			if name != "strings.EqualFold" {
+				s.assume(Implies(r, Le(StrLen(b), StrLen(a)))) // a substring is not longer than the string
+			}
+			return Value{r}
 		})
 	}
 	externTable["strings.Contains"] = pred2("strings.Contains", strings.Contains)
@@ -644,7 +648,60 @@ func initExterns() {
 		externTable["(*"+antlrPkg+".BaseToken)."+name] = externTable["(*"+antlrPkg+".CommonToken)."+name]
 	}
 	tokM("GetLine", SInt)
-	tokM("GetTokenIndex", SInt)
+	// token indices are positions in the stream's token list (-1 before the token is buffered)
+	tokIdx := func(e *Engine, s *State, tok *Term) *Term {
+		idx := App("tok.GetTokenIndex", SInt, tok)
+		s.assume(Le(Int(-1), idx))
+		s.assume(Lt(idx, Int(maxLen)))
+		return idx
+	}
+	invokeTable["("+antlrPkg+".Token).GetTokenIndex"] = func(e *Engine, s *State, x ssa.CallInstruction, recv Value, args []Value) {
+		e.bindResult(s, x, Value{tokIdx(e, s, recv[1])})
+	}
+	for _, recvT := range []string{"CommonToken", "BaseToken"} {
+		externTable["(*"+antlrPkg+"."+recvT+").GetTokenIndex"] = ret(func(e *Engine, s *State, x ssa.CallInstruction, args []Value) Value {
+			e.safe(s, x, "recv", Ne(args[0][0], Zero))
+			return Value{tokIdx(e, s, args[0][0])}
+		})
+	}
+	// nullable tokens of a context whose rule is not known statically
+	nullableTok := func(fn string) invokeSpec {
+		return func(e *Engine, s *State, x ssa.CallInstruction, recv Value, args []Value) {
+			t := App("acc.dyn"+fn, SInt, recv[0], recv[1])
+			has := App("acc.dynhas"+fn, SBool, recv[0], recv[1])
+			s.assume(Implies(has, Ne(t, Zero)))
+			e.bindResult(s, x, Value{Ite(has, e.tokenTag(), Zero), Ite(has, t, Zero)})
+		}
+	}
+	invokeTable["("+antlrPkg+".ParserRuleContext).GetStart"] = nullableTok("start")
+	invokeTable["("+antlrPkg+".ParserRuleContext).GetStop"] = nullableTok("stop")
+	// token stream: the buffered token list only grows, so Size() is modelled as a function of the
+	// stream; Get(i) indexes that list (runtime panic outside 0 <= i < Size()).
+	tsSize := func(e *Engine, s *State, ts *Term) *Term {
+		n := App("ts.size", SInt, ts)
+		s.assume(Le(Zero, n))
+		s.assume(Le(n, Int(maxLen)))
+		return n
+	}
+	externTable["(*"+antlrPkg+".CommonTokenStream).Size"] = ret(func(e *Engine, s *State, x ssa.CallInstruction, args []Value) Value {
+		e.safe(s, x, "recv", Ne(args[0][0], Zero))
+		e.assumed["the token stream's Size() does not shrink while the formatter runs (ANTLR's token buffer only grows)"] = true
+		return Value{tsSize(e, s, args[0][0])}
+	})
+	externTable["(*"+antlrPkg+".CommonTokenStream).Get"] = ret(func(e *Engine, s *State, x ssa.CallInstruction, args []Value) Value {
+		e.safe(s, x, "recv", Ne(args[0][0], Zero))
+		e.safe(s, x, "index", And(Le(Zero, args[1][0]), Lt(args[1][0], tsSize(e, s, args[0][0]))))
+		t := App("ts.get", SInt, args[0][0], args[1][0])
+		s.assume(Ne(t, Zero))
+		return Value{e.tokenTag(), t}
+	})
+	externTable["(*"+antlrPkg+".CommonTokenStream).LT"] = ret(func(e *Engine, s *State, x ssa.CallInstruction, args []Value) Value {
+		e.safe(s, x, "recv", Ne(args[0][0], Zero))
+		t := Sym(e.freshName("ext.LT"), SInt)
+		has := Sym(e.freshName("ext.LT.has"), SBool)
+		s.assume(Implies(has, Ne(t, Zero)))
+		return Value{Ite(has, e.tokenTag(), Zero), Ite(has, t, Zero)}
+	})
 	tokM("GetTokenType", SInt)
 	tokM("GetColumn", SInt)
 	for _, recvT := range []string{"CommonToken", "BaseToken"} {
